@@ -44,7 +44,7 @@ static Op g_ops[400]; static int g_nops;
 static int g_keyop_first, g_nkeyops, g_first_tkey = -1;
 
 #define NKEYS 2
-static uint8_t KEYS[NKEYS][48];
+static uint8_t KEYS[NKEYS + 1][48];     /* KEYS[NKEYS]: the first block of KEYS[0] followed by zeros (a longer key that equals a shorter one after zero padding) */
 static uint8_t TWEAKS[40][16]; static int TWLEN[40]; static int TWNULL[40]; static int g_ntweaks;
 static uint8_t CTRS[64][16]; static int CTLEN[64]; static int CTNULL[64]; static int g_nctrs;
 static int LENS[256]; static int g_nlens;
@@ -73,6 +73,7 @@ static void build_alphabet(void)
     static const uint8_t suite128[16] = {0x01,0x23,0x45,0x67,0x89,0xab,0xcd,0xef,0x01,0x23,0x45,0x67,0x89,0xab,0xcd,0xef};
     lcg_fill(KEYS[0], 48, 4242 + (uint32_t)g_opts.seed);
     for (i = 0; i < 48; ++i) KEYS[1][i] = (uint8_t)(0xFF - 5 * i);
+    memset(KEYS[NKEYS], 0, 48); memcpy(KEYS[NKEYS], KEYS[0], (size_t)g_bs);
 
     /* TWEAKS(B): Z, F, R1 at full length; R1 at every length 1..B-1; null at lengths 1 and B */
     g_ntweaks = 0;
@@ -132,6 +133,7 @@ static void build_alphabet(void)
         for (k = 0; k < NKEYS; ++k) { add_op(T_KEY, k, 5); add_op(T_KEY, k, 8); if (thorough) { add_op(T_KEY, k, 6); add_op(T_KEY, k, 7); } }
     } else {
         for (k = 0; k < NKEYS; ++k) for (i = 1; i <= 3; ++i) add_op(T_KEY, k, i * B);
+        add_op(T_KEY, NKEYS, 2 * B); add_op(T_KEY, NKEYS, 3 * B);      /* K0's first block followed by zeros, at the longer sizes */
         g_first_tkey = g_nops;
         for (k = 0; k < NKEYS; ++k) for (i = 1; i <= 2; ++i) add_op(T_TKEY, k, i * B);
     }
